@@ -973,26 +973,46 @@ class Interp:
         raise Inconclusive('bytes_term of %r' % (b,))
 
     def pack(self, elems):
-        """vector of byte values -> Term; recognises byteAt(x,0..n-1)"""
+        """vector of byte values -> Term; runs byteAt(x,0..blen(x)-1) are recognised as x (segments are concatenated)"""
         n = len(elems)
-        if n and all(is_sym(e) for e in elems):
-            e0 = elems[0]
-            if z3.is_app(e0) and e0.decl().name() == 'byteAt':
-                x = e0.arg(0)
-                ok = True
-                for i, e in enumerate(elems):
-                    if not (z3.is_app(e) and e.decl().name() == 'byteAt' and e.arg(0).eq(x)
-                            and z3.is_int_value(e.arg(1)) and e.arg(1).as_long() == i):
-                        ok = False
+        if n == 0:
+            return T.lit_bytes(b'')
+        segs = []
+        i = 0
+        plain = []
+
+        def flush():
+            if plain:
+                try:
+                    segs.append(T.pack_bits(list(plain)))
+                except ValueError as ex:
+                    raise Inconclusive(str(ex))
+                del plain[:]
+        while i < n:
+            e = elems[i]
+            if is_sym(e) and z3.is_app(e) and e.decl().name() == 'byteAt' and z3.is_int_value(e.arg(1)) and e.arg(1).as_long() == 0:
+                x = e.arg(0)
+                j = 1
+                while i + j < n:
+                    f = elems[i + j]
+                    if is_sym(f) and z3.is_app(f) and f.decl().name() == 'byteAt' and f.arg(0).eq(x) and z3.is_int_value(f.arg(1)) and f.arg(1).as_long() == j:
+                        j += 1
+                    else:
                         break
-                if ok:
-                    if self.implied(T.blen(x) == n):
-                        return x
-                    return self.mk_sub(x, 0, n)
-        try:
-            return T.pack_bits(elems)
-        except ValueError as ex:
-            raise Inconclusive(str(ex))
+                if self.implied(T.blen(x) == j):
+                    flush()
+                    segs.append(x)
+                    i += j
+                    continue
+                if j == n and i == 0:
+                    return self.mk_sub(x, 0, j)
+            plain.append(e)
+            i += 1
+        flush()
+        t = segs[0]
+        for s2 in segs[1:]:
+            t = self.mk_cat(t, s2)
+        return t
 
     def mk_sub(self, x, off, n):
         t = T.app('sub', x, T.Term.bits(z3.IntVal(8), z3.ZeroExt(T.BW - 64, tobv(off, 64)) if not isinstance(off, int) else z3.BitVecVal(off, T.BW)),
